@@ -67,6 +67,10 @@ def run(check, prog):
     csg_motion(check, prog)
     bounds_search(check, prog)
     domain_count(check, prog)
+    # translating a scatterer translates its region: nothing remembered on the
+    # object survives the copy that translated() starts from (shared with C19)
+    from . import c19
+    c19.scatterer_no_memo(check, prog)
     sphere_like_constructors(check, prog)
     # the region of a centred scatterer moves by the vector: centre' = centre + v
     from . import c19
